@@ -343,6 +343,7 @@ def main(run):
                 "identifiers and same-address memory cells x 6 valuations of the free symbols. non-trivial = at least one identifier or cell is bound; distinct = (expression, bound names, cells)")
     run.assumptions = ["vlib/irsem.py is the value semantics", "fresh Expr objects and a fresh machine per case; the shared default eval_cache of get_mem_overlapping is cleared before each case (C12's subject)",
                        "reads that partially overlap a bound cell are excluded (C07's subject)", "division operators are judged only where the divisor is non-zero"]
+    run.mem_limit = 4 << 30       # per worker: unbounded allocation by the code under test becomes a MemoryError, see runner._call
     runner.pmap(run, w_run, [run.pick(1500, 30000)] * 16)
 
 
